@@ -265,9 +265,9 @@ def run_case(ctx, name, params):
         pt = Patches()
 
         def mk(orig):
-            def evaluate_scalar(self, vector):
+            def evaluate_scalar(self, vector, *a, **kw):
                 x = [float(v) for v in vector]
-                ret = orig(self, vector)
+                ret = orig(self, vector, *a, **kw)
                 taps.append((x, ret))
                 return ret
             return evaluate_scalar
